@@ -1015,6 +1015,9 @@ enum Entry {
 	Pbh,
 	Sync(u64),
 	Block,
+	/// the genuine header of that height was accepted header-first, then the full block arrives
+	/// under the candidate header (a raw candidate keeps the genuine proof, i.e. the same hash)
+	BlockKnown,
 	Read,
 }
 
@@ -1024,6 +1027,7 @@ impl Entry {
 			Entry::Pbh => "process_block_header",
 			Entry::Sync(_) => "sync_block_headers",
 			Entry::Block => "process_block",
+			Entry::BlockKnown => "process_block_after_header",
 			Entry::Read => "untrusted_read",
 		}
 	}
@@ -1641,6 +1645,14 @@ fn run_pipeline(r: &mut Report, id: &CaseId, cand: &BlockHeader, e: Entry) {
 			known.add(&rh(&s.header));
 		}
 	}
+	if e == Entry::BlockKnown {
+		let genuine = u.blocks[h as usize].header.clone();
+		let ok = catch_unwind(AssertUnwindSafe(|| chain.process_block_header(&genuine, Options::NONE)));
+		if !matches!(ok, Ok(Ok(_))) {
+			r.violation("headers:rejected-valid:genuine-header-first", format!("the genuine header at height {} was refused or panicked", h), id.json(e, cand));
+			return;
+		}
+	}
 	let pre = fp(&chain);
 	// reference verdict
 	let mut batch: Vec<BlockHeader> = vec![];
@@ -1669,7 +1681,7 @@ fn run_pipeline(r: &mut Report, id: &CaseId, cand: &BlockHeader, e: Entry) {
 				let sh = chain.header_head().expect("header_head");
 				chain.sync_block_headers(&batch, sh, Options::NONE).map(|_| ()).map_err(|e| err_class(&e))
 			}
-			Entry::Block => {
+			Entry::Block | Entry::BlockKnown => {
 				let mut b = u.blocks[h as usize].clone();
 				b.header = cand.clone();
 				chain.process_block(b, Options::NONE).map(|_| ()).map_err(|e| err_class(&e))
@@ -1729,7 +1741,9 @@ fn run_pipeline(r: &mut Report, id: &CaseId, cand: &BlockHeader, e: Entry) {
 					case.clone(),
 				);
 			}
-			if batch.iter().any(|b| chain.get_block_header(&b.hash()).is_ok()) {
+			// (after header-first delivery the genuine header, which a raw candidate shares its hash
+			// with, is rightly in the store)
+			if e != Entry::BlockKnown && batch.iter().any(|b| chain.get_block_header(&b.hash()).is_ok()) {
 				r.violation(
 					format!("headers:reject-stored:{}", e.name()),
 					format!("a header of a refused delivery is retrievable from the store: {}", what),
@@ -1744,7 +1758,11 @@ fn run_pipeline(r: &mut Report, id: &CaseId, cand: &BlockHeader, e: Entry) {
 			let (root, size) = Known::mmr_root_of(&line, Some(&c));
 			let want_hh = (hex(&c.hash()), c.height, c.td);
 			let mut ok = post.header_head == want_hh && post.mmr_size == size && post.mmr_root == hex(&root);
-			if e == Entry::Block {
+			if e == Entry::BlockKnown {
+				// the genuine header of equal work came first and keeps header_head and the MMR;
+				// the accepted block becomes the body head
+				ok = post.head == want_hh;
+			} else if e == Entry::Block {
 				ok = ok && post.head == want_hh;
 			} else {
 				ok = ok && post.head == pre.head;
@@ -1813,7 +1831,11 @@ fn run_tuple(r: &mut Report, u: &Universe, h: u64, op: &str, remined: bool, tier
 			return true;
 		}
 	};
-	for e in entries_for(h, op, tier) {
+	let mut entries = entries_for(h, op, tier);
+	if !remined && entries.contains(&Entry::Block) {
+		entries.push(Entry::BlockKnown);
+	}
+	for e in entries {
 		if let Some((name, k)) = only {
 			let ek = if let Entry::Sync(k) = e { k } else { 0 };
 			if name != e.name() || k != ek {
@@ -1886,7 +1908,7 @@ impl Engine for C04 {
 	fn meta(&self, _tier: Tier) -> Meta {
 		Meta {
 			level: "exploration",
-			rule: "exhaustive enumeration. headers: every height 1..16 of each explored real-PoW chain x every operator of the closed single-field mutation catalogue x {raw, re-mined} x {process_block_header, process_block, sync_block_headers with the candidate last in a batch of every length 1..height (quick: lengths 1, 2, 3 and height), UntrustedBlockHeader::read}; a case is one (chain, height, operator, variant, entry point, batch length). retarget: every window of 61 entries that differs from the regular baseline (dt 60 s, difficulty d0 in {min, 1000, 2^40}, on-target secondary pattern) in at most the stated number of (position, field) deviations from the closed deviation set, for every chain type and a start/end height of every hard-fork era; retarget-short: every height 1..60 with its n = height real entries and pre-genesis padding, same deviation sets; schedule: header_version / valid_header_version / graph_weight at every fork or phase-out boundary +-2 on every chain type; all generated cases are distinct by construction",
+			rule: "exhaustive enumeration. headers: every height 1..16 of each explored real-PoW chain x every operator of the closed single-field mutation catalogue x {raw, re-mined} x {process_block_header, process_block, process_block after the genuine header of that height was accepted header-first (raw candidates, which keep the genuine proof and therefore the genuine hash), sync_block_headers with the candidate last in a batch of every length 1..height (quick: lengths 1, 2, 3 and height), UntrustedBlockHeader::read}; a case is one (chain, height, operator, variant, entry point, batch length). retarget: every window of 61 entries that differs from the regular baseline (dt 60 s, difficulty d0 in {min, 1000, 2^40}, on-target secondary pattern) in at most the stated number of (position, field) deviations from the closed deviation set, for every chain type and a start/end height of every hard-fork era; retarget-short: every height 1..60 with its n = height real entries and pre-genesis padding, same deviation sets; schedule: header_version / valid_header_version / graph_weight at every fork or phase-out boundary +-2 on every chain type; all generated cases are distinct by construction",
 			assumptions: vec![
 				"blake2b-256 (blake2-rfc crate) is the hash; the reference serialises headers, packs proofs, derives siphash keys, checks the Cuckatoo cycle and builds the header MMR itself".into(),
 				"retarget domain: windows a valid chain can produce (strictly increasing timestamps, per-block difficulty <= 10 * 2^40, secondary scaling within +-1 of the unit scaling or at its minimum); outside it (timestamp subtraction, u64 products, the u32 cast of the scaling) the function is not claimed total".into(),
